@@ -1556,6 +1556,7 @@ def ref_alimerge(rng, i):
         texts.append(t)
     ops, args = [], [ABCFLAG[abc]]
     if rng.random() < 0.3: args += ["--outformat", rng.choice(["pfam", "stockholm", "afa"])]
+    if rng.random() < 0.2 and clen > 0: args += ["--rfonly"]
     if use_list:
         # group the alignments into files
         files, cur = [], ""
